@@ -10,6 +10,7 @@ mod gate;
 mod hybrid;
 mod inflight;
 mod mem;
+mod pinrace;
 
 use std::{
     io::{BufRead, Write},
@@ -218,6 +219,29 @@ fn mem_conc(args: &[String]) {
     });
     let mut w = std::io::BufWriter::new(std::fs::File::create(&trace_path).unwrap_or_else(|e| die(format!("{trace_path}: {e}"))));
     let (runs, events) = conc::run(&cfg, &prm, seed, &mut w).unwrap_or_else(|e| die(e));
+    w.flush().unwrap_or_else(|e| die(format!("flush: {e}")));
+    println!("{}", json!({"runs": runs, "events": events}));
+}
+
+/// C18 under forced thread schedules: `--scripts` = file of {"owners": [..], "starts": [{t, op, from}..]} lines
+fn pin_race(args: &[String]) {
+    let spath = arg(args, "--scripts").unwrap_or_else(|| die("--scripts missing"));
+    let trace_path = arg(args, "--trace").unwrap_or_else(|| die("--trace missing"));
+    let repeat: usize = arg(args, "--repeat").and_then(|s| s.parse().ok()).unwrap_or(1);
+    let settle: u64 = arg(args, "--settle-ms").and_then(|s| s.parse().ok()).unwrap_or(15);
+    let text = std::fs::read_to_string(&spath).unwrap_or_else(|e| die(format!("{spath}: {e}")));
+    let scripts: Vec<J> = text
+        .lines()
+        .filter(|l| !l.trim().is_empty())
+        .map(|l| serde_json::from_str(l).unwrap_or_else(|e| die(format!("script: {e}"))))
+        .collect();
+    std::thread::spawn(move || {
+        std::thread::sleep(std::time::Duration::from_secs(600));
+        eprintln!("harness: forced schedules did not finish within 600s (deadlock?)");
+        std::process::exit(4);
+    });
+    let mut w = std::io::BufWriter::new(std::fs::File::create(&trace_path).unwrap_or_else(|e| die(format!("{trace_path}: {e}"))));
+    let (runs, events) = pinrace::run(&scripts, repeat, settle, &mut w).unwrap_or_else(|e| die(e));
     w.flush().unwrap_or_else(|e| die(format!("flush: {e}")));
     println!("{}", json!({"runs": runs, "events": events}));
 }
@@ -484,6 +508,7 @@ fn main() {
         Some("disk-run") => disk_run(&args[2..]),
         Some("mem-conc") => mem_conc(&args[2..]),
         Some("codec-run") => codec_run(&args[2..]),
+        Some("pin-race") => pin_race(&args[2..]),
         _ => die("usage: harness <mem-replay> ..."),
     }
 }
